@@ -142,6 +142,7 @@ pub struct TreeStats {
     a_only: u64,
     b_only: u64,
     none: u64,
+    gapped: u64,
 }
 /// When the dishonest server creates the versions: nothing forces it to create one version per epoch.
 #[derive(Serialize, Deserialize, Clone, Copy, Debug, PartialEq)]
@@ -180,7 +181,7 @@ pub fn sched_strategy() -> impl Strategy<Value = Sched> {
 
 /// A dishonest server builds a tree with exactly the leaves both proofs need, assembles both
 /// proofs and the real verifiers decide. Returns (history A verified, second proof verified).
-pub async fn replay_on_tree<TC: Tcfg>(p: &Pair, sched: Sched) -> R<(bool, bool)> {
+pub async fn replay_on_tree<TC: Tcfg>(p: &Pair, sched: Sched, gap: Option<(u64, u64)>) -> R<(bool, bool)> {
     let c = TC::CFG;
     let key = hard_key();
     let pk = public_key(&key);
@@ -191,8 +192,18 @@ pub async fn replay_on_tree<TC: Tcfg>(p: &Pair, sched: Sched) -> R<(bool, bool)>
     };
     let stm = manager(AsyncInMemoryDatabase::new(), CacheKind::None);
     let _d = new_dir::<TC, _>(stm.clone(), &key, ParKind::Disabled).await?;
-    let fresh: BTreeSet<u64> = a.fresh_set().union(&b.fresh_set()).cloned().collect();
-    let stale: BTreeSet<u64> = a.stale_set().union(&b.stale_set()).cloned().collect();
+    let (sa, na) = match *p {
+        Pair::HH { s, n, .. } => (s, n),
+        Pair::HL { n, .. } => (1, n),
+    };
+    // the version list history A presents: s..=n, or (dishonest) the same with the versions lo..=hi strictly inside left out
+    let list_a: Vec<u64> = (sa..=na).rev().filter(|v| gap.map(|(lo, hi)| *v < lo || *v > hi).unwrap_or(true)).collect();
+    let (a_fresh, a_stale): (BTreeSet<u64>, BTreeSet<u64>) = match gap {
+        None => (a.fresh_set(), a.stale_set()),
+        Some(_) => (list_a.iter().cloned().chain(a.fresh_extra.iter().cloned()).collect(), list_a.iter().filter(|v| **v > 1).map(|v| v - 1).collect()),
+    };
+    let fresh: BTreeSet<u64> = a_fresh.union(&b.fresh_set()).cloned().collect();
+    let stale: BTreeSet<u64> = a_stale.union(&b.stale_set()).cloned().collect();
     let value = |v: u64| format!("value-{v}").into_bytes();
     let fg0 = Forger::new(&stm, &key).await;
     let ckey = h(c, &[&key]);
@@ -226,16 +237,17 @@ pub async fn replay_on_tree<TC: Tcfg>(p: &Pair, sched: Sched) -> R<(bool, bool)>
     ensure!(fg.azks.latest_epoch == e, "harness", "dishonest tree is at epoch {} instead of {e}", fg.azks.latest_epoch);
     let mv = |v: u64| MVersion { version: v, value: value(v), epoch: sched.created(v, e) };
     let hist = |s: u64, n: u64| -> Vec<MVersion> { (s..=n).rev().map(mv).collect() };
+    let hist_a: Vec<MVersion> = list_a.iter().map(|v| mv(*v)).collect();
     let (ok_a, ok_b) = match *p {
         Pair::HH { s, n, s2, m, .. } => {
-            let pa = fg.history_proof::<TC>(&label, &hist(s, n), e, 0).await;
+            let pa = fg.history_proof::<TC>(&label, &hist_a, e, 0).await;
             let pb = fg.history_proof::<TC>(&label, &hist(s2, m), e, 0).await;
             let ra = verify_history::<TC>(&pk, root, e, &label, pa, HP::MostRecent((n - s + 1) as usize).to(), false);
             let rb = verify_history::<TC>(&pk, root, e, &label, pb, HP::MostRecent((m - s2 + 1) as usize).to(), false);
             (ra.map(|l| l[0].version == n).unwrap_or(false), rb.map(|l| l[0].version == m).unwrap_or(false))
         }
         Pair::HL { n, m, .. } => {
-            let pa = fg.history_proof::<TC>(&label, &hist(1, n), e, 0).await;
+            let pa = fg.history_proof::<TC>(&label, &hist_a, e, 0).await;
             let snl = fg.node_label::<TC>(&label, false, m).await;
             let abs = fg.absences::<TC>(snl).await;
             let pb = fg.lookup_proof::<TC>(&label, &mv(m), abs[0].clone()).await;
@@ -247,8 +259,8 @@ pub async fn replay_on_tree<TC: Tcfg>(p: &Pair, sched: Sched) -> R<(bool, bool)>
     Ok((ok_a, ok_b))
 }
 
-async fn tree_check<TC: Tcfg>(p: &Pair, sched: Sched, st: &mut TreeStats) -> R {
-    let (a, b) = replay_on_tree::<TC>(p, sched).await?;
+async fn tree_check<TC: Tcfg>(p: &Pair, sched: Sched, gap: Option<(u64, u64)>, st: &mut TreeStats) -> R {
+    let (a, b) = replay_on_tree::<TC>(p, sched, gap).await?;
     match (a, b) {
         (true, true) => st.both_verified += 1,
         (true, false) => st.a_only += 1,
@@ -257,6 +269,12 @@ async fn tree_check<TC: Tcfg>(p: &Pair, sched: Sched, st: &mut TreeStats) -> R {
     }
     let (sa, sb) = p.shows();
     let compat = sa.compatible(&sb);
+    if let Some((lo, hi)) = gap {
+        // a history with versions left out must never verify at all, let alone next to a proof with another latest version
+        ensure!(!(a && b), "verifiers-disagree-on-real-tree", "{p:?} ({sched:?}), history A presented WITHOUT versions {lo}..={hi}: on a real tree built by a dishonest server BOTH proofs verify under the same epoch and root with different latest versions");
+        st.gapped += 1;
+        return Ok(());
+    }
     if a && b {
         // both real verifiers accepted different latest versions under one root
         if let Pair::HL { e, n, m } = *p {
@@ -399,13 +417,29 @@ pub fn run(eng: &mut Engine) {
     let tree_cases = eng.tier.pick(3000, 40_000);
     eng.prop_part(
         "real_trees",
-        "sampled pairs with E <= 12 (plus, implicitly, every pair the abstract analysis calls compatible) replayed on a real tree: a dishonest server inserts exactly the leaves both proofs need (version v created - and v-1 retired - at epoch v, or several versions created in one epoch: from epoch k on, all in epoch k or E, d per epoch), both proofs are assembled with the VRF key and handed to key_history_verify / lookup_verify under the same epoch and root; violated iff both verify with different latest versions; also cross-checks the abstract 'shows' sets against the real verifiers; every case non-trivial, distinct by (pair, creation schedule)",
+        "sampled pairs with E <= 12 (plus, implicitly, every pair the abstract analysis calls compatible) replayed on a real tree: a dishonest server inserts exactly the leaves both proofs need (version v created - and v-1 retired - at epoch v, or several versions created in one epoch: from epoch k on, all in epoch k or E, d per epoch), both proofs are assembled with the VRF key and handed to key_history_verify / lookup_verify under the same epoch and root; violated iff both verify with different latest versions; also cross-checks the abstract 'shows' sets against the real verifiers; a quarter of the cases present history A with a range of inner versions left out (such a proof must not verify next to another one); every case non-trivial, distinct by (pair, creation schedule)",
         tree_cases,
-        || (pair_strategy(12), prop_oneof![Just(Cfg::Wa), Just(Cfg::Exp)], sched_strategy()),
-        |(p, cfg, sched): &(Pair, Cfg, Sched), ctx: &mut Ctx| {
+        || (pair_strategy(12), prop_oneof![Just(Cfg::Wa), Just(Cfg::Exp)], sched_strategy(), prop_oneof![3 => Just(None), 1 => (any::<u16>(), any::<u16>()).prop_map(Some)]),
+        |(p, cfg, sched, gapsel): &(Pair, Cfg, Sched, Option<(u16, u16)>), ctx: &mut Ctx| {
             let sched = *sched;
-            ctx.nontrivial(fp_json(&(p, sched)));
-            ctx.sample(&(p, sched));
+            // a gap strictly inside history A's version range (needs at least 3 versions)
+            let (sa, na) = match *p {
+                Pair::HH { s, n, .. } => (s, n),
+                Pair::HL { n, .. } => (1, n),
+            };
+            let gap = match gapsel {
+                Some((x, y)) if na >= sa + 2 => {
+                    let inner = (na - sa - 1) as usize;
+                    let (g1, g2) = (sa + 1 + sel(*x, inner) as u64, sa + 1 + sel(*y, inner) as u64);
+                    Some((g1.min(g2), g1.max(g2)))
+                }
+                _ => None,
+            };
+            if gap.is_some() {
+                ctx.class("history_A_with_versions_left_out");
+            }
+            ctx.nontrivial(fp_json(&(p, sched, gap)));
+            ctx.sample(&(p, sched, gap));
             ctx.class(match sched {
                 Sched::Diagonal => "one_version_per_epoch",
                 _ => "several_versions_created_in_one_epoch",
@@ -413,8 +447,8 @@ pub fn run(eng: &mut Engine) {
             let mut st = TreeStats::default();
             let r = block_on(async {
                 match cfg {
-                    Cfg::Wa => tree_check::<Wa>(p, sched, &mut st).await,
-                    Cfg::Exp => tree_check::<Exp>(p, sched, &mut st).await,
+                    Cfg::Wa => tree_check::<Wa>(p, sched, gap, &mut st).await,
+                    Cfg::Exp => tree_check::<Exp>(p, sched, gap, &mut st).await,
                 }
             });
             ctx.count("both_proofs_verified", st.both_verified);
